@@ -15,7 +15,11 @@ so `(T)` must stay when
   * T is an optional and it is a member of an intersection;
   * T is an intersection and it is the operand of `?`, of `...`, or a member of a union;
   * `(T)` is a generic argument (it denotes a pack).
-Only the one-directional requirement is a contract (needed ==> kept): keeping more parentheses than needed is cosmetic."""
+Only the one-directional requirement is a contract (needed ==> kept): keeping more parentheses than needed is cosmetic.
+
+format_type_info_internal (Tuple / Union / Intersection / Optional / Variadic arms) and hang_type_info: the context each member is
+formatted for carries the mark of the compound it is a member of, and `(T)` loses its parentheses only where keep_parentheses(T,
+context) is false (type_post, parens_kept, members_kept below)."""
 from gen import Unit, Fn, Item, Raw, RawFile, Hole, After, Before, Loop, Between, SplitOrGuards
 from common import *
 
@@ -41,20 +45,177 @@ pub open spec fn parens_needed(t: TypeInfo, c: TypeInfoContext) -> bool {
 }
 """
 
+HANG_SPEC = r"""
+// ---- members of a union / intersection ----
+#[verifier::external_type_specification] #[verifier::reject_recursive_types(T)] pub struct ExPair<T>(Pair<T>);
+pub uninterp spec fn ppairs<T>(p: Punctuated<T>) -> Seq<Pair<T>>;
+pub open spec fn pair_value<T>(p: Pair<T>) -> T { match p { Pair::End(v) => v, Pair::Punctuated(v, _) => v } }
+pub open spec fn pvals<T>(p: Punctuated<T>) -> Seq<T> { ppairs(p).map_values(|x: Pair<T>| pair_value(x)) }
+pub assume_specification<T> [Punctuated::<T>::pairs] (p: &Punctuated<T>) -> (r: impl Iterator<Item = &Pair<T>>)
+    ensures it_rest(&r).len() == ppairs(*p).len(), forall|i: int| 0 <= i < it_rest(&r).len() ==> *(#[trigger] it_rest(&r)[i]) == ppairs(*p)[i];
+pub assume_specification<T> [Punctuated::<T>::new] () -> (r: Punctuated<T>) ensures ppairs(r).len() == 0;
+pub assume_specification<T> [Punctuated::<T>::push] (p: &mut Punctuated<T>, pair: Pair<T>) ensures ppairs(*final(p)) == ppairs(*old(p)).push(pair);
+pub uninterp spec fn union_types(u: TypeUnion) -> Punctuated<TypeInfo>;
+pub uninterp spec fn intersection_types(u: TypeIntersection) -> Punctuated<TypeInfo>;
+pub assume_specification [TypeUnion::types] (u: &TypeUnion) -> (r: &Punctuated<TypeInfo>) ensures *r == union_types(*u);
+pub assume_specification [TypeUnion::new] (leading: Option<TokenReference>, types: Punctuated<TypeInfo>) -> (r: TypeUnion) ensures union_types(r) == types;
+pub assume_specification [TypeUnion::leading] (u: &TypeUnion) -> (r: Option<&TokenReference>);
+pub assume_specification [TypeIntersection::types] (u: &TypeIntersection) -> (r: &Punctuated<TypeInfo>) ensures *r == intersection_types(*u);
+pub assume_specification [TypeIntersection::new] (leading: Option<TokenReference>, types: Punctuated<TypeInfo>) -> (r: TypeIntersection) ensures intersection_types(r) == types;
+pub assume_specification [TypeIntersection::leading] (u: &TypeIntersection) -> (r: Option<&TokenReference>);
+pub assume_specification [<TypeInfo as Clone>::clone] (t: &TypeInfo) -> (r: TypeInfo) ensures r == *t;
+
+// `(T)`: the type inside parentheses that hold exactly one type
+pub open spec fn single_inner(t: TypeInfo) -> Option<TypeInfo> {
+    match t { TypeInfo::Tuple { types, .. } => if ppairs(types).len() == 1 { Some(pair_value(ppairs(types)[0])) } else { None }, _ => None }
+}
+// what a formatter of one type owes its caller: `(T)` whose parentheses are needed in the context it is formatted for comes back in parentheses
+pub open spec fn parens_kept(t: TypeInfo, c: TypeInfoContext, r: TypeInfo) -> bool {
+    single_inner(t) is Some && parens_needed(single_inner(t)->Some_0, c) ==> r is Tuple
+}
+pub open spec fn members_kept(a: Seq<TypeInfo>, c: TypeInfoContext, b: Seq<TypeInfo>) -> bool {
+    a.len() == b.len() && forall|i: int| 0 <= i < a.len() ==> parens_kept(#[trigger] a[i], c, b[i])
+}
+pub open spec fn with_union(c: TypeInfoContext) -> TypeInfoContext { TypeInfoContext { contains_union: true, ..c } }
+pub open spec fn with_intersect(c: TypeInfoContext) -> TypeInfoContext { TypeInfoContext { contains_intersect: true, ..c } }
+pub open spec fn hang_post(t: TypeInfo, c: TypeInfoContext, r: TypeInfo) -> bool {
+    match t {
+        TypeInfo::Union(u) => match r { TypeInfo::Union(ru) => members_kept(pvals(union_types(u)), with_union(c), pvals(union_types(ru))), _ => false },
+        TypeInfo::Intersection(u) => match r { TypeInfo::Intersection(ru) => members_kept(pvals(intersection_types(u)), with_intersect(c), pvals(intersection_types(ru))), _ => false },
+        _ => parens_kept(t, c, r),
+    }
+}
+impl UpdateLeadingTrivia for TypeInfo {
+    // only the trivia in front of the first token change: for `(T)` that token is the parenthesis
+    open spec fn same_sem(&self, r: &Self) -> bool { single_inner(*r) == single_inner(*self) }
+    open spec fn lead_ok(&self, t: FormatTriviaType, r: &Self) -> bool { true }
+    open spec fn on_new_line(&self) -> bool { other_nl(*self) }
+    open spec fn rest_same(&self, r: &Self) -> bool { true }
+    #[verifier::external_body] fn update_leading_trivia(&self, leading_trivia: FormatTriviaType) -> (r: Self) { unimplemented!() }
+}
+pub open spec fn with_optional(c: TypeInfoContext) -> TypeInfoContext { TypeInfoContext { within_optional: true, ..c } }
+pub open spec fn with_variadic(c: TypeInfoContext) -> TypeInfoContext { TypeInfoContext { within_variadic: true, ..c } }
+// format_type_info_internal: what each arm that builds a compound type owes — every `(T)` directly under it is formatted for the
+// context that names the compound (and so keeps parentheses it needs there); for `(T)` itself: parens_kept
+pub open spec fn type_post(t: TypeInfo, c: TypeInfoContext, r: TypeInfo) -> bool {
+    parens_kept(t, c, r) && match t {
+        TypeInfo::Union(u) => match r { TypeInfo::Union(ru) => members_kept(pvals(union_types(u)), with_union(c), pvals(union_types(ru))), _ => false },
+        TypeInfo::Intersection(u) => match r { TypeInfo::Intersection(ru) => members_kept(pvals(intersection_types(u)), with_intersect(c), pvals(intersection_types(ru))), _ => false },
+        TypeInfo::Optional { base, .. } => match r { TypeInfo::Optional { base: rb, .. } => parens_kept(*base, with_union(with_optional(c)), *rb), _ => false },
+        TypeInfo::Variadic { type_info, .. } => match r { TypeInfo::Variadic { type_info: rt, .. } => parens_kept(*type_info, with_variadic(c), *rt), _ => false },
+        _ => true,
+    }
+}
+// structure of full_moon's type tree (class A): the members of a union / intersection and the types inside parentheses are parts of it
+#[verifier::external_body] pub proof fn lemma_union_member_smaller(u: TypeUnion, i: int)
+    requires 0 <= i < ppairs(union_types(u)).len() ensures decreases_to!(TypeInfo::Union(u) => pair_value(ppairs(union_types(u))[i])) {}
+#[verifier::external_body] pub proof fn lemma_intersection_member_smaller(u: TypeIntersection, i: int)
+    requires 0 <= i < ppairs(intersection_types(u)).len() ensures decreases_to!(TypeInfo::Intersection(u) => pair_value(ppairs(intersection_types(u))[i])) {}
+impl UpdateTrailingTrivia for TypeInfo {
+    open spec fn same_sem_t(&self, r: &Self) -> bool { (*r is Tuple) == (*self is Tuple) }
+    open spec fn trail_ok(&self, t: FormatTriviaType, r: &Self) -> bool { true }
+    open spec fn not_open(&self) -> bool { other_closed(*self) }
+    #[verifier::external_body] fn update_trailing_trivia(&self, trailing_trivia: FormatTriviaType) -> (r: Self) { unimplemented!() }
+}
+pub assume_specification<T> [Punctuated::<T>::len] (p: &Punctuated<T>) -> (r: usize) ensures r == ppairs(*p).len();
+#[verifier::external_body] pub fn first_type(types: &Punctuated<TypeInfo>) -> (r: &TypeInfo) requires ppairs(*types).len() >= 1 ensures *r == pair_value(ppairs(*types)[0]) { unimplemented!() /* types.iter().next().unwrap() */ }
+#[verifier::external_body] pub fn first_type_owned(types: Punctuated<TypeInfo>) -> (r: TypeInfo) requires ppairs(types).len() >= 1 ensures r == pair_value(ppairs(types)[0]) { unimplemented!() /* types.into_iter().next().unwrap() */ }
+// the arms that build no union / intersection / optional / variadic / parenthesised type (arrays, names, callbacks, generics, tables, typeof, modules)
+#[verifier::external_body] pub fn other_arm(ctx: &Context, type_info: &TypeInfo, context: TypeInfoContext, shape: Shape) -> (r: TypeInfo)
+    ensures !(r is Tuple) || true { unimplemented!() }
+// format_punctuated(ctx, types, shape, |..| format_type_info_internal(.., context, ..)): each type inside the parentheses formatted for the same context
+// (its result is the recursive call's; the closure hides the recursion from the verifier, hence assumed here)
+#[verifier::external_body] pub fn format_tuple_types(ctx: &Context, types: &Punctuated<TypeInfo>, context: TypeInfoContext, shape: Shape) -> (r: Punctuated<TypeInfo>)
+    ensures ppairs(r).len() == ppairs(*types).len() { unimplemented!() }
+#[verifier::external_body] pub fn format_tuple_multiline(ctx: &Context, parentheses: &ContainedSpan, types: &Punctuated<TypeInfo>, shape: Shape) -> (r: (ContainedSpan, Punctuated<TypeInfo>)) { unimplemented!() }
+#[verifier::external_body] pub fn format_optional_symbol(ctx: &Context, token: Option<&TokenReference>, shape: Shape) -> Option<TokenReference> { unimplemented!() /* token.map(|token| fmt_symbol!(ctx, token, "| " or "& ", shape)) */ }
+#[verifier::external_body] pub fn peekable<I: Iterator>(it: I) -> (r: std::iter::Peekable<I>) ensures pk_rest(&r) == it_rest(&it) { it.peekable() }
+"""
+
+def hang_inv(types_of, mark, extra=""):
+    return f"""
+        invariant
+            {extra}
+            0 <= k <= ppairs({types_of}).len(),
+            pk_rest(&iter).len() == ppairs({types_of}).len() - k,
+            forall|j: int| 0 <= j < pk_rest(&iter).len() ==> *(#[trigger] pk_rest(&iter)[j]) == ppairs({types_of})[k + j],
+            ppairs(types).len() == k,
+            forall|i: int| 0 <= i < k ==> parens_kept(pair_value(#[trigger] ppairs({types_of})[i]), {mark}(context), pair_value(ppairs(types)[i])), //# C02.luau_hang_loop
+        ensures k == ppairs({types_of}).len(),
+        decreases pk_rest(&iter).len(),
+"""
+
 def items():
-    return [
-        RawFile("prelude/fm_types.rs"),
+    its = common_items()
+    return its + [
         Raw(SPEC, module="formatters::luau"),
         Item(LU, "struct", "TypeInfoContext", keep_derives=("Clone", "Copy")),
         Fn(LU, "keep_parentheses", contract="""
     ensures parens_needed(*internal_type, context) ==> r, //# C02.luau_type_parentheses_kept
 """, edits=[SplitOrGuards()]),
+        Raw(HANG_SPEC, module="formatters::luau"),
+        Fn(LU, "mark_contains_union", impl_of="TypeInfoContext", contract="ensures r == with_union(self),"),
+        Fn(LU, "mark_contains_intersect", impl_of="TypeInfoContext", contract="ensures r == with_intersect(self),"),
+        Fn(LU, "mark_within_optional", impl_of="TypeInfoContext", contract="ensures r == with_optional(self),"),
+        Fn(LU, "mark_within_variadic", impl_of="TypeInfoContext", contract="ensures r == with_variadic(self),"),
+        Fn("src/formatters/general.rs", "format_symbol", mode="stub"),
+        Fn("src/formatters/general.rs", "format_token_reference", mode="stub"),
+        Fn("src/formatters/general.rs", "format_contained_span", mode="stub"),
+        Fn(LU, "format_type_info_internal", contract="""
+    ensures type_post(*type_info, context, r), //# C02.luau_type_members_keep_parentheses
+    decreases type_info,
+""", edits=[
+            Between("TypeInfo::Array {\n            braces,\n            access,\n            type_info,\n        } => {", "TypeInfo::GenericPack { name, ellipsis }\n        }",
+                    "TypeInfo::Array { .. } | TypeInfo::Basic(_) | TypeInfo::String(_) | TypeInfo::Boolean(_) | TypeInfo::Callback { .. } | TypeInfo::Generic { .. } | TypeInfo::GenericPack { .. } => other_arm(ctx, type_info, context, shape),",
+                    why="arms that build no compound of parenthesisable members: arrays, names, literals, callbacks, generics (their nested types are formatted by calls the unit does not follow)"),
+            Between("TypeInfo::Module {\n            module,\n            punctuation,\n            type_info,\n        } => {", "TypeInfo::Module {\n                module,\n                punctuation,\n                type_info,\n            }\n        }",
+                    "TypeInfo::Module { .. } => other_arm(ctx, type_info, context, shape),", why="module-qualified names"),
+            Between("TypeInfo::Table { braces, fields } => {", "TypeInfo::Typeof {\n                typeof_token,\n                parentheses,\n                inner,\n            }\n        }",
+                    "TypeInfo::Table { .. } | TypeInfo::Typeof { .. } => other_arm(ctx, type_info, context, shape),", why="table types and typeof(..)"),
+            Between("|| types.pairs().any(|pair| {", "                });", "|| hole_bool();", why="closure over the comments of the types inside the parentheses: chooses the layout only"),
+            Between("format_punctuated(ctx, types, shape + 1, |ctx, type_info, shape| {", "}); // 1 = \"(\"", "format_tuple_types(ctx, types, context, shape + 1);", why="generic list formatter with a closure that recurses"),
+            Hole("""format_contained_punctuated_multiline(
+                    ctx,
+                    parentheses,
+                    types,
+                    |ctx, type_info, shape| format_hangable_type_info(ctx, type_info, shape, 0),
+                    shape,
+                )""", "format_tuple_multiline(ctx, parentheses, types, shape)", kind="wrapper", why="generic list formatter with a closure"),
+            Hole("types.iter().next().unwrap()", "first_type(types)", kind="wrapper", why="Punctuated::iter().next().unwrap()", optional=True),
+            Hole("singleline_types.into_iter().next().unwrap()", "first_type_owned(singleline_types)", kind="wrapper", why="Punctuated::into_iter().next().unwrap()"),
+            Hole("for pair in intersection.types().pairs() {", "let mut vx_it = peekable(intersection.types().pairs());\n            let ghost mut k: int = 0;\n            while let Some(pair) = vx_it.next() {", kind="desugar", why="for over an iterator: written as its definition, through the Peekable wrapper"),
+            Hole("for pair in union.types().pairs() {", "let mut vx_it = peekable(union.types().pairs());\n            let ghost mut k: int = 0;\n            while let Some(pair) = vx_it.next() {", kind="desugar", why="for over an iterator: written as its definition, through the Peekable wrapper"),
+            Loop("while let Some(pair) = vx_it.next()", hang_inv("intersection_types(*intersection)", "with_intersect", "*type_info == TypeInfo::Intersection(*intersection),").replace("&iter", "&vx_it").replace("C02.luau_hang_loop", "C02.luau_type_loop"), step="proof { k = k + 1; }", enter="proof { lemma_intersection_member_smaller(*intersection, k); }", nth=0),
+            Loop("while let Some(pair) = vx_it.next()", hang_inv("union_types(*union)", "with_union", "*type_info == TypeInfo::Union(*union),").replace("&iter", "&vx_it").replace("C02.luau_hang_loop", "C02.luau_type_loop"), step="proof { k = k + 1; }", enter="proof { lemma_union_member_smaller(*union, k); }", nth=1),
+        ]),
+        Fn(LU, "hang_type_info_binop", mode="stub"),
+        Fn(LU, "hang_type_info", contract="""
+    ensures hang_post(*type_info, context, r), //# C02.luau_hang_members_keep_parentheses
+""", edits=[
+            Hole("union.types().pairs().peekable()", "peekable(union.types().pairs())", kind="wrapper", why="Iterator::peekable through a wrapper carrying the ghost sequence"),
+            Hole("intersection.types().pairs().peekable()", "peekable(intersection.types().pairs())", kind="wrapper", why="Iterator::peekable through a wrapper carrying the ghost sequence"),
+            Hole("iter.peek().leading_comments()", "hole_vec_token()", count=2, why="trait method on Option<&&Pair<TypeInfo>>: the comments in front of the next member, moved in front of the operator"),
+            Hole("""union
+                    .leading()
+                    .map(|token| fmt_symbol!(ctx, token, "| ", shape))""", "format_optional_symbol(ctx, union.leading(), shape)", kind="wrapper", why="closure over the optional leading `|`"),
+            Hole("""intersection
+                    .leading()
+                    .map(|token| fmt_symbol!(ctx, token, "& ", shape))""", "format_optional_symbol(ctx, intersection.leading(), shape)", kind="wrapper", why="closure over the optional leading `&`"),
+            After("let mut iter = peekable(union.types().pairs());", "let ghost mut k: int = 0;"),
+            After("let mut iter = peekable(intersection.types().pairs());", "let ghost mut k: int = 0;"),
+            Loop("while let Some(pair) = iter.next()", hang_inv("union_types(*union)", "with_union"), step="proof { k = k + 1; }", nth=0),
+            Loop("while let Some(pair) = iter.next()", hang_inv("intersection_types(*intersection)", "with_intersect"), step="proof { k = k + 1; }", nth=1),
+        ]),
     ]
 
 LABELS = {
+    "C02.luau_type_members_keep_parentheses": dict(props=["C02"], text="format_type_info_internal: `(T)` loses its parentheses only where keep_parentheses(T, context) says they are not needed; the members of a union / intersection, the base of an optional and the type of a variadic are formatted for the context that carries the matching mark"),
+    "C02.luau_type_loop": dict(props=["C02"], text="format_type_info_internal, union / intersection loops: the members pushed so far correspond one to one to the input's, each formatted for the marked context"),
+    "C02.luau_hang_members_keep_parentheses": dict(props=["C02"], text="hang_type_info: every member `(T)` of a hung union / intersection whose parentheses are needed under the union (intersection) mark is formatted for a context that carries the mark, so it comes back in parentheses; same number of members"),
+    "C02.luau_hang_loop": dict(props=["C02"], text="hang_type_info loop invariant: the members pushed so far correspond one to one to the input's, each formatted for the marked context"),
     "C02.luau_type_parentheses_kept": dict(props=["C02"], text="keep_parentheses: parentheses around a single Luau type are kept wherever the grammar reads the type differently without them (function type before `?` / `|` / `&`, union under `?` / `...` / `&`, optional under `&`, intersection under `?` / `...` / `|`, any generic argument)"),
 }
 
-HEADER_LUAU = HEADER + "use full_moon::ast::luau::TypeInfo;\n"
+HEADER_LUAU = HEADER + "use full_moon::ast::luau::{TypeInfo, TypeUnion, TypeIntersection};\nuse full_moon::ast::punctuated::Pair;\n"
 
-UNIT = Unit("luau", items(), LABELS, header=HEADER_LUAU, feature_sets=("all",))
+UNIT = Unit("luau", items() + [VERIF_MOD], LABELS, macros=[("src/formatters/general.rs", "fmt_symbol")], header=HEADER_LUAU, feature_sets=("all",))
